@@ -254,10 +254,18 @@ func (r *Rig) find(prop, key, detail string, step int) {
 	r.rep.Findings = append(r.rep.Findings, Finding{Prop: prop, Key: key, Detail: detail, Step: step})
 }
 
+// wireFlag: a flag of the model as it is written on the wire (system flags carry a backslash, keywords do not)
+func wireFlag(x string) string {
+	if strings.HasSuffix(x, "Forwarded") {
+		return x
+	}
+	return "\\" + x
+}
+
 func flagText(f []string) string {
 	out := make([]string, 0, len(f))
 	for _, x := range f {
-		out = append(out, "\\"+x)
+		out = append(out, wireFlag(x))
 	}
 	return strings.Join(out, " ")
 }
@@ -539,6 +547,10 @@ func (r *Rig) Exec(idx int, st *Step, prev *Step) *Drift {
 			cmd = "FETCH 1 (BODY.PEEK[7.1])"
 			cmdKind = "Fetch"
 		}
+		if st.ArgStr(0) == "FetchBodyNoPart" {
+			cmd = "FETCH 1 (BODY[7.1])"
+			cmdKind = "Fetch"
+		}
 		res = s.c.Cmd(cmd)
 		r.logf("[%s] %s -> %s %s", s.name, cmd, res.Status, res.Text)
 	case "Expunge":
@@ -753,7 +765,7 @@ func (r *Rig) Exec(idx int, st *Step, prev *Step) *Drift {
 		m, fl := st.ArgStr(0), st.ArgStrs(1)
 		fs := imap.NewFlagSet()
 		for _, f := range fl {
-			fs.AddToSelf("\\" + f)
+			fs.AddToSelf(wireFlag(f))
 		}
 		err := r.conn.Submit(imap.NewMessageFlagsUpdated(r.remote[m], fs), 10*time.Second)
 		r.logf("[conn] MessageFlagsUpdated %s %v -> %v", m, fl, err)
@@ -1158,7 +1170,7 @@ func (r *Rig) connSetBoxes(idx int, st *Step, prev *Step) *Drift {
 		fs := imap.NewFlagSet()
 		if prev != nil {
 			for _, f := range prev.Flg[m] {
-				fs.AddToSelf("\\" + f)
+				fs.AddToSelf(wireFlag(f))
 			}
 		}
 		err = r.conn.Submit(imap.NewMessageMailboxesUpdated(rid, ids, fs), 10*time.Second)
@@ -1192,7 +1204,7 @@ func (r *Rig) connSetBoxes(idx int, st *Step, prev *Step) *Drift {
 func flagSet(fl []string) imap.FlagSet {
 	fs := imap.NewFlagSet()
 	for _, f := range fl {
-		fs.AddToSelf("\\" + f)
+		fs.AddToSelf(wireFlag(f))
 	}
 	return fs
 }
